@@ -7,6 +7,7 @@ import (
 	"strconv"
 	"strings"
 	"sync"
+	"unicode/utf8"
 
 	"github.com/expr-lang/expr"
 	"github.com/expr-lang/expr/vm"
@@ -643,12 +644,18 @@ func (bridge *ExprBridge) matchesLikePattern(text, pattern string) bool {
 			starIdx = pi
 			matchIdx = ti
 			pi++
-		} else if pi < len(pattern) && (pattern[pi] == '_' || pattern[pi] == text[ti]) {
+		} else if pi < len(pattern) && pattern[pi] == '_' {
+			// '_' stands for one character, which may span several bytes
+			_, size := utf8.DecodeRuneInString(text[ti:])
+			ti += size
+			pi++
+		} else if pi < len(pattern) && pattern[pi] == text[ti] {
 			ti++
 			pi++
 		} else if starIdx != -1 {
 			pi = starIdx + 1
-			matchIdx++
+			_, size := utf8.DecodeRuneInString(text[matchIdx:])
+			matchIdx += size
 			ti = matchIdx
 		} else {
 			return false
